@@ -62,6 +62,17 @@ def make_tree(root):
         f.write('not a notebook\n')
     with open(os.path.join(work, 'empty.ipynb'), 'w') as f:
         pass
+    # the served directory is a git repository with two revisions of g.ipynb (for `nbdiff-web <ref> <ref>`)
+    def git(*a):
+        subprocess.run(['git'] + list(a), cwd=work, check=True, stdout=subprocess.DEVNULL, stderr=subprocess.DEVNULL)
+    with open(os.path.join(work, 'g.ipynb'), 'w', encoding='utf8') as f:
+        json.dump(notebooks()['a.ipynb'], f, indent=1)
+    git('init', '-q', '-b', 'main')
+    git('add', 'g.ipynb')
+    git('commit', '-q', '-m', 'one')
+    with open(os.path.join(work, 'g.ipynb'), 'w', encoding='utf8') as f:
+        json.dump(notebooks()['d.ipynb'], f, indent=1)
+    git('commit', '-q', '-am', 'two')
     with open(os.path.join(root, 'sentinel', 'secret.ipynb'), 'w', encoding='utf8') as f:
         json.dump(notebooks()['b.ipynb'], f)
     with open(os.path.join(root, 'sentinel', 'keep.txt'), 'w') as f:
@@ -100,6 +111,7 @@ MODES = {
     'mergeweb-noout-persist': dict(entry='nbmergeweb', argv=['a.ipynb', 'b.ipynb', 'c.ipynb', '--persist'], closable=False, output=None, prefix='', tool=None),
     'mergetool-prefix-persist': dict(entry='nbmergetool', argv=['a.ipynb', 'b.ipynb', 'c.ipynb', 'out.ipynb', '--base-url', '/pfx/', '--persist'],
                                      closable=False, output='out.ipynb', prefix='/pfx', tool=('a.ipynb', 'b.ipynb', 'c.ipynb')),
+    'diffweb-gitrefs':  dict(entry='nbdiffweb', argv=['HEAD~1', 'HEAD', '-p', '0'], closable=True, output=None, prefix='', tool=('g.ipynb', None, 'g.ipynb'), pinned_diff=True),
     'difftool-persist': dict(entry='nbdifftool', argv=['a.ipynb', 'd.ipynb', '--persist'], closable=False, output=None, prefix='', tool=('a.ipynb', None, 'd.ipynb')),
 }
 
@@ -142,7 +154,9 @@ class Server(object):
 
                 def browse(port, **kw):
                     os.write(w, ('%d\n' % port).encode())
-                if hasattr(mod, 'browse'):
+                if hasattr(mod, 'browse_util'):
+                    mod.browse_util = browse
+                elif hasattr(mod, 'browse'):
                     mod.browse = browse
                 else:
                     # `nbdime server` passes no on_port callback: supply one (port 0 = chosen by the kernel, no races between workers)
@@ -423,7 +437,7 @@ def files_readable(root, m, req):
 
 
 def is_difftool(m):
-    return m['entry'] == 'nbdifftool'
+    return m['entry'] == 'nbdifftool' or m.get('pinned_diff', False)
 
 
 def is_mergetool(m):
@@ -569,11 +583,11 @@ def run(tier, seed):
         sys.path.insert(0, STUBS)
     os.environ['PYTHONPATH'] = os.environ.get('PYTHONPATH', '') + os.pathsep + STUBS
     # the parent imports the web stack, never serves a request
-    import nbdime.webapp.nbdimeserver, nbdime.webapp.nbdifftool, nbdime.webapp.nbmergetool, nbdime.webapp.nbmergeweb  # noqa
+    import nbdime.webapp.nbdimeserver, nbdime.webapp.nbdifftool, nbdime.webapp.nbmergetool, nbdime.webapp.nbmergeweb, nbdime.webapp.nbdiffweb  # noqa
     tree = tempfile.mkdtemp(prefix='c20tree-', dir=isolate.scratch_root())
     make_tree(tree)
     _G['tree'] = tree
-    modes = ['plain', 'difftool', 'mergetool', 'mergeweb-out', 'mergeweb-noout-persist', 'mergetool-prefix-persist'] if tier == 'quick' else sorted(MODES)
+    modes = ['plain', 'difftool', 'mergetool', 'mergeweb-out', 'mergeweb-noout-persist', 'mergetool-prefix-persist', 'diffweb-gitrefs'] if tier == 'quick' else sorted(MODES)
     _G['reqs'] = {m: requests_for(m, tier) for m in modes}
     triples = [['a.ipynb', 'b.ipynb', 'c.ipynb'], ['a.ipynb', 'b.ipynb', 'd.ipynb']]
     _G['libref'] = library_reference(tree, triples)
